@@ -249,6 +249,7 @@ type outcome struct {
 }
 
 var watchdog = 120 * time.Second
+var timeouts int
 
 func guarded(f func()) (o outcome) {
 	done := make(chan outcome, 1)
@@ -266,12 +267,20 @@ func guarded(f func()) (o outcome) {
 	case o = <-done:
 	case <-time.After(watchdog):
 		o.timeout = true
+		timeouts++
 	}
 	return
 }
 
 func (o outcome) into(e Event) Event {
 	e["panicked"], e["panic"], e["timeout"] = o.panicked, units(o.panicTxt), o.timeout
+	if o.timeout && timeouts >= 3 {
+		// three calls have hung: record this one and stop (the abandoned goroutines keep the CPUs busy)
+		emit(e)
+		emit(Event{"op": "Aborted", "why": units("three calls exceeded the watchdog")})
+		closeOut()
+		os.Exit(0)
+	}
 	return e
 }
 
